@@ -699,7 +699,23 @@ func c11handlerNames(p *core.Prog, ds *ssa.Function, setter string) map[string]b
 				all = false
 				break
 			}
-			fa, isLoad := core.Resolve(call.Call.Args[i]).(*ssa.UnOp)
+			argv := core.Resolve(call.Call.Args[i])
+			// a nil-preserving conversion helper (`posterOf(h)`: h as an interface, nil stays nil) passes its argument on
+			if hc, isHC := argv.(*ssa.Call); isHC && len(hc.Call.Args) == 1 {
+				if h := core.Callee(&hc.Call); h != nil && p.InRepo(h) && len(h.Blocks) > 0 && len(h.Params) == 1 {
+					pass := true
+					for _, rc := range core.ReturnCases(h) {
+						rv := core.Unwrap(core.Resolve(rc.Vals[0]))
+						if rv != ssa.Value(h.Params[0]) && !core.IsNilConst(rv) {
+							pass = false
+						}
+					}
+					if pass {
+						argv = core.Resolve(hc.Call.Args[0])
+					}
+				}
+			}
+			fa, isLoad := argv.(*ssa.UnOp)
 			if !isLoad {
 				all = false
 				break
